@@ -15,3 +15,27 @@ def make(kind, n):
     if kind == "empty":
         return ""
     return Obj(n, "payload")
+
+
+def inner(kind, n):
+    rec("inner")
+    return ("inner", _val(kind, n))
+
+
+def outer(kind, n):
+    """A kept function that keeps an intermediate result itself (two paths per evaluation)."""
+    rec("outer")
+    a = dds.keep("/stage/inner", inner, kind, n)
+    return ("outer", a)
+
+
+def _val(kind, n):
+    if kind == "str":
+        return f"s{n}-é" + "x" * (n % 7)
+    if kind == "bytes":
+        return bytes([n % 256, 0, 255, n % 7])
+    if kind == "none":
+        return None
+    if kind == "empty":
+        return ""
+    return Obj(n, "payload")
